@@ -292,3 +292,18 @@ func init() {
 		return in.newNumPtr("Int", symNum(v, bits))
 	}
 }
+
+func init() {
+	intrinsics[vsymPkg+"SelectBytes"] = func(in *Interp, fr *Frame, a []Value) Value {
+		c := a[0].(*Term)
+		x, y := in.bytesOf(a[1]), in.bytesOf(a[2])
+		if len(x) != len(y) {
+			in.fail("SelectBytes: different lengths")
+		}
+		out := make([]*Term, len(x))
+		for i := range x {
+			out[i] = Ite(c, x[i], y[i])
+		}
+		return in.byteSlice(out)
+	}
+}
